@@ -148,7 +148,7 @@ class Oracle:
         v = f[0]
         if v == "set":
             return [it.split("|")[0] for it in f[2:]]
-        if v in ("get", "gbk", "shift", "del", "arek"):
+        if v in ("get", "mget", "gbk", "shift", "del", "arek"):
             return f[1:]
         if v in ("iske", "size", "hasval"):
             return [f[1]]
@@ -243,6 +243,12 @@ class Oracle:
             if not ex:
                 return "err:FailedPrecondition", nothing
             return " ".join(["get"] + [show_rec(self.st[k]) if k in self.st else "-" for k in keys]), nothing
+        if v == "mget":
+            # one Get over (this swamp, a swamp never created, this swamp): per-swamp existence in a batch
+            if not ex:
+                return "mget noswamp / noswamp / noswamp", nothing
+            body = " ".join([show_rec(self.st[k]) if k in self.st else "-" for k in keys])
+            return "mget %s / noswamp / %s" % (body, body), nothing
         if v == "getall":
             if not ex:
                 return "err:FailedPrecondition", nothing
@@ -425,7 +431,7 @@ class Oracle:
             self.st, self.complete = {}, True
 
 
-READ_ONLY = ("get", "getall", "gbk", "count", "iske", "arek", "issw", "size", "hasval", "compact")
+READ_ONLY = ("get", "mget", "getall", "gbk", "count", "iske", "arek", "issw", "size", "hasval", "compact")
 
 
 def check_case(ops, impl, skip_lines=(), stats=None):
